@@ -165,6 +165,19 @@ func c06Run(w c06Workload) (msg string, st c06Stats) {
 			}
 		}
 	}
+	// "when run alone": an argument error names a function and a position; the
+	// same program is evaluated in a process that has evaluated nothing else
+	for k, t := range texts {
+		if e := expect[0][k]; e.Kind == port.KError && (e.Err == "ArgCount" || e.Err == "ArgType") {
+			is := newIsolator()
+			r := is.Call("evalv", mustJSON(evalCase{Text: t, Input: inputs[0]}))
+			is.Close()
+			var alone evalResult
+			if r.Status == isoOK && json.Unmarshal(r.Result, &alone) == nil && alone.Kind == port.KError && alone.Err == e.Err && alone.Msg != e.Msg {
+				return fmt.Sprintf("%q fails with %q in this process (after other programs were evaluated), but with %q when evaluated alone in a fresh process", t, e.Msg, alone.Msg), st
+			}
+		}
+	}
 	logBefore := raceLogSize()
 	shared := make([]*jsonata.Expr, len(texts))
 	for k, t := range texts {
@@ -238,6 +251,9 @@ func c06Run(w c06Workload) (msg string, st c06Stats) {
 					}
 					out := port.Eval(e, in)
 					atomic.AddInt64(&st.evals, 1)
+					if port.Same(out, expect[i][k]) && out.Kind == port.KError && (out.Err == "ArgCount" || out.Err == "ArgType") && out.Msg != expect[i][k].Msg {
+						report(fmt.Sprintf("goroutine %d of %d (%s): %q fails with %q concurrently, but with %q when evaluated alone", i, G, w.Config, texts[k], out.Msg, expect[i][k].Msg))
+					}
 					if !port.Same(out, expect[i][k]) {
 						report(fmt.Sprintf("goroutine %d of %d (%s): %q on its own input gave %s concurrently, but %s when evaluated alone", i, G, w.Config, texts[k], out.String(), expect[i][k].String()))
 					}
@@ -335,6 +351,17 @@ func TestC06_Workloads(t *testing.T) {
 			} else {
 				w.Texts = append(w.Texts, rapid.SampledFrom(c06Templates).Draw(rt, "template"))
 			}
+		}
+		// every other workload also runs a built-in through a differently named
+		// variable next to a failing call of the same built-in that is not made by
+		// name (the error must name the function itself), and reads the clock twice
+		if rapid.Bool().Draw(rt, "aliasAndClock") {
+			w.Texts = append(w.Texts, rapid.SampledFrom([][]string{
+				{`($j := $join; $j([tag, a], "-"))`, `$map([tag, n], $join)`},
+				{`($r := $reduce; $r(arr, function($x, $y){$x + $y}))`, `[n] ~> $reduce`},
+				{`($c := $count; $c(arr))`, `$filter([tag], $count(?, n))`},
+			}).Draw(rt, "aliasPair")...)
+			w.Texts = append(w.Texts, `($m := $millis(); $s := $sum([1..2000]); ($millis() = $m and $toMillis($now()) = $m) ? tag & $s : "the clock moved within one evaluation")`)
 		}
 		for i := 0; i < 3; i++ {
 			w.Extra = append(w.Extra, val.JSON(docs.Draw(rt, "extra")))
